@@ -41,7 +41,8 @@ def cases(tier, seed):
             yield dict(kind='units', pairs=pairs[i:i + 9], cont='float', hist=True)
     # (B) experiments within a deviation bound
     dims = [('ninst', [1, 2, 3]), ('nbeads', [1, 0, 2]), ('nsamples', [2, 1, 3, 4]), ('gf', [0.85, 0.3, 1.0]), ('cont', ['int', 'float']),
-            ('neg', [False, True]), ('hist', [True, False]), ('units', ['mixed', 'all-mef', 'none', 'channel'])]
+            ('neg', [False, True]), ('hist', [True, False]), ('units', ['mixed', 'all-mef', 'none', 'channel']),
+            ('res', ['same', 'mixed']), ('cluster', ['all', 'second-only', 'first-only'])]
     for cfg in explore.deviations(dims, 1 if tier == 'quick' else 2):
         yield dict(kind='experiment', cfg=cfg)
 
@@ -70,15 +71,18 @@ def build_experiment(c, d):
         beads = []
         for k in range(cfg['nbeads']):
             inst = insts[k % len(insts)]
-            lay, truth = wg.bead_layout(inst, stream=40 + k, container=cfg['cont'])
+            resl = [1024, 256] if cfg.get('res') == 'mixed' else None
+            lay, truth = wg.bead_layout(inst, stream=40 + k, container=cfg['cont'], res=resl)
             wg.write_fcs(os.path.join(d, 'beads%d.fcs' % k), lay)
-            beads.append(dict(id='B%d' % (k + 1), inst=inst['id'], file='beads%d.fcs' % k, gate_fraction=[0.3, 0.5][k % 2], cluster=', '.join(inst['fl']),
+            clus = {'all': ', '.join(inst['fl']), 'second-only': inst['fl'][1], 'first-only': inst['fl'][0]}[cfg.get('cluster', 'all')]
+            beads.append(dict(id='B%d' % (k + 1), inst=inst['id'], file='beads%d.fcs' % k, gate_fraction=[0.3, 0.5][k % 2], cluster=clus,
                               mef={ch: wg.mef_string(truth, ci) for ci, ch in enumerate(inst['fl'])}, inst_obj=inst))
         samples = []
         for k in range(cfg['nsamples']):
             inst = insts[k % len(insts)]
             wg.write_fcs(os.path.join(d, 'sub', 'cells%d.fcs' % k), wg.cell_layout(inst, stream=50 + k, container=cfg['cont'], negatives=cfg['neg'] and cfg['cont'] == 'float',
-                                                                                  n=800 + 150 * k, level=150.0 + 60 * k))
+                                                                                  n=800 + 150 * k, level=150.0 + 60 * k,
+                                                                                  res=[1024, 256] if cfg.get('res') == 'mixed' else None))
             mybeads = [b for b in beads if b['inst'] == inst['id']]
             if cfg['units'] == 'mixed':
                 u = [['MEF', 'RFI'], ['a.u.', None], ['Channel', 'mef'], ['rfi', 'MEF']][k % 4]
